@@ -160,7 +160,7 @@ pub struct AuditInfo {
 }
 
 pub trait Kind: Sized + 'static {
-    type F: BooleanFunction + Function + Eq + Hash + Clone + Ord;
+    type F: BooleanFunction + Function<ManagerRef: Send + Sync> + Eq + Hash + Clone + Ord + Send + Sync;
     const NAME: &'static str;
     /// number of nodes `node_count` reports for a terminal-only diagram etc. is kind specific; the
     /// reference diagram size is computed by `ref_node_count`
@@ -184,6 +184,8 @@ pub trait Kind: Sized + 'static {
     fn internal_roots<'id>(_m: &<Self::F as Function>::Manager<'id>) -> usize {
         0
     }
+    /// set the split depth of the manager's worker pool (`None` = automatic)
+    fn set_split_depth(_mref: &<Self::F as Function>::ManagerRef, _depth: Option<u32>) {}
     /// the printed trees of the internal roots (one entry per reference held)
     fn internal_root_trees<'id>(_m: &<Self::F as Function>::Manager<'id>) -> Vec<String> {
         Vec::new()
@@ -328,7 +330,7 @@ impl<K: Kind> Scenario for Bf<K> {
                 self.threads = threads;
                 self.mref = Some(K::new_manager(nodes, cache, threads));
                 if let Some(sd) = parse_kv(&w, "split") {
-                    let _ = sd; // split depth is set by kind specific code if supported
+                    K::set_split_depth(self.mref(), if sd == "auto" { None } else { Some(sd.parse().unwrap()) });
                 }
                 let vars: u32 = parse_kv(&w, "vars").map(|s| s.parse().unwrap()).unwrap_or(0);
                 if vars > 0 {
@@ -793,12 +795,98 @@ impl<K: Kind> Scenario for Bf<K> {
                 }
                 inner.to_string()
             }
+            "pargc" => {
+                // a collection that may run concurrently with operations of other threads
+                self.mref().with_manager_shared(|m| m.gc());
+                "ok".into()
+            }
+            "par" => {
+                // par t0:<op line> ; t1:<op line> ; ... — the items of each thread run in order on
+                // their own OS thread, all threads concurrently on this manager. Threads only define
+                // and drop handles with their own prefix `t<k>_`, so every result is determined by
+                // the operands alone and must equal the sequential result (C07).
+                let body = line.strip_prefix("par").unwrap().trim();
+                let items: Vec<(usize, String)> = body
+                    .split(" ; ")
+                    .map(|it| {
+                        let (t, l) = it.trim().split_once(':').expect("par item");
+                        (t[1..].parse::<usize>().unwrap(), l.to_string())
+                    })
+                    .collect();
+                let nthreads = items.iter().map(|x| x.0).max().map(|m| m + 1).unwrap_or(0);
+                let mut per: Vec<Vec<(usize, String)>> = vec![Vec::new(); nthreads];
+                for (i, (t, l)) in items.iter().enumerate() {
+                    per[*t].push((i, l.clone()));
+                }
+                let mref = self.mref().clone();
+                let (h0, tt0, n, threads, extra) = (self.h.clone(), self.tt.clone(), self.n, self.threads, self.extra.clone());
+                let seed = ctx.line_no;
+                let results: Vec<(Vec<(usize, String)>, HashMap<String, K::F>, HashMap<String, TT>, Vec<String>)> = std::thread::scope(|sc| {
+                    let handles: Vec<_> = per
+                        .iter()
+                        .enumerate()
+                        .map(|(t, lines)| {
+                            let (mref, h0, tt0, extra) = (mref.clone(), h0.clone(), tt0.clone(), extra.clone());
+                            let case = ctx.case.clone();
+                            let line_no = ctx.line_no;
+                            sc.spawn(move || {
+                                let mut child: Bf<K> = Bf::new(&extra);
+                                child.mref = Some(mref);
+                                child.h = h0;
+                                child.tt = tt0;
+                                child.n = n;
+                                child.threads = threads;
+                                let mut cctx = Ctx { line_no, case, failures: Vec::new(), stats: BTreeMap::new(), extra: extra.clone() };
+                                let mut rng = crate::Rng::new(seed * 131 + t as u64);
+                                let mut outs = Vec::new();
+                                for (i, l) in lines {
+                                    match rng.below(4) {
+                                        0 => std::thread::yield_now(),
+                                        1 => std::thread::sleep(std::time::Duration::from_micros(rng.below(200))),
+                                        _ => {}
+                                    }
+                                    outs.push((*i, child.step(l, &mut cctx)));
+                                }
+                                let prefix = format!("t{}_", t);
+                                let h: HashMap<String, K::F> = child.h.iter().filter(|(k, _)| k.starts_with(&prefix)).map(|(k, v)| (k.clone(), v.clone())).collect();
+                                let tt: HashMap<String, TT> = child.tt.iter().filter(|(k, _)| k.starts_with(&prefix)).map(|(k, v)| (k.clone(), v.clone())).collect();
+                                (outs, h, tt, cctx.failures)
+                            })
+                        })
+                        .collect();
+                    handles.into_iter().map(|j| j.join().expect("worker thread panicked")).collect()
+                });
+                let mut outs: Vec<String> = vec![String::new(); items.len()];
+                for (t, (o, h, tt, fails)) in results.into_iter().enumerate() {
+                    for (i, s) in o {
+                        outs[i] = s;
+                    }
+                    let prefix = format!("t{}_", t);
+                    self.h.retain(|k, _| !k.starts_with(&prefix));
+                    self.tt.retain(|k, _| !k.starts_with(&prefix));
+                    self.h.extend(h);
+                    self.tt.extend(tt);
+                    for f in fails {
+                        ctx.failures.push(f);
+                        ctx.count("oracle_failures");
+                    }
+                }
+                ctx.add("par_items", items.len() as u64);
+                outs.join(" ; ")
+            }
             "rcchk" => {
                 // the reference-count oracle on the current store (garbage included); prints `ok`
                 let _ = self.step("dump", ctx);
                 "ok".into()
             }
-            "nodes" => self.mref().with_manager_shared(|m| m.num_inner_nodes()).to_string(),
+            "nodes" => {
+                // informational (garbage included, so not predicted by the tree-level model)
+                let k = self.mref().with_manager_shared(|m| m.num_inner_nodes());
+                ctx.add("max_nodes_seen", 0);
+                let e = ctx.stats.entry("max_nodes_seen".into()).or_insert(0);
+                *e = (*e).max(k as u64);
+                "-".into()
+            }
             "dump" => {
                 // all stored inner nodes with their reference counts, sorted; oracle (C05): the
                 // count of a node = live handles + stored parent edges (+ kind-internal roots)
